@@ -642,3 +642,12 @@ Lemma d24b_child_without_parents :
 Proof.
   vm_compute. split; [tauto|]. repeat split; intro H; repeat (destruct H as [H|H]; [discriminate|]); exact H.
 Qed.
+
+Lemma d24b_refutation :
+  ~ no_loss (trk_ d24b_before) /\
+  (mem 1 (fin d24b_after) = true /\ ~ In 3 (hist d24b_after) /\ ~ In 4 (hist d24b_after)) /\
+  (In 7 (hist d24b_after2) /\ mem 3 (fin d24b_after2) = false /\ mem 4 (fin d24b_after2) = false).
+Proof.
+  destruct d24b_lost as [H1 [H2 [H3 [H4 _]]]]. destruct d24b_child_without_parents as [H5 [H6 [H7 _]]].
+  exact (conj H1 (conj (conj H2 (conj H3 H4)) (conj H5 (conj H6 H7)))).
+Qed.
